@@ -203,8 +203,9 @@ class AsyncPolicy:
                 )
             )
 
-        klass = classify_for_breaker(exc, self.retry)
-        record_failure(ctx, klass)
+        if ctx.breaker is not None:
+            klass = classify_for_breaker(exc, self.retry)
+            record_failure(ctx, klass)
 
     async def execute(
         self,
